@@ -135,6 +135,10 @@ impl HxCfg {
         }
         for k in &self.scripts {
             for a in &self.ids {
+                if *k >= 2 {
+                    ops.push(Op::Script(*k, *a, 0));
+                    continue;
+                }
                 for b in &self.ids {
                     if a != b {
                         ops.push(Op::Script(*k, *a, *b));
@@ -163,7 +167,7 @@ impl HxCfg {
             self.probe_names().join(" ")
         ) + &if self.merges.is_empty() { String::new() } else { format!(" merges {:?}", self.merges) }
             + &if self.merge_fails.is_empty() { String::new() } else { format!(" failing merges {:?}", self.merge_fails) }
-            + &if self.scripts.is_empty() { String::new() } else { format!(" scripts {:?} (0 well-formed, 1 failing at its fifth command)", self.scripts) }
+            + &if self.scripts.is_empty() { String::new() } else { format!(" scripts {:?} (0 well-formed, 1 failing at its fifth command, 2 and 3 the same with a $variable for the new vertex)", self.scripts) }
             + &if self.seeds.is_empty() { String::new() } else { format!(" seeds {:?}", self.seeds.iter().map(|s| s.0.clone()).collect::<Vec<_>>()) }
     }
 
@@ -598,15 +602,16 @@ pub fn check_transition<const N: usize>(
     }
     // 1b. scripts: Ok(number of commands) for the well-formed one, Err for the one with a malformed command
     if let (Op::Script(k, ..), Ok(Ret::Script(r))) = (op, res) {
-        match (k, r) {
-            (0, Ok(4)) | (1..=u8::MAX, Err(_)) => {}
-            (0, Ok(n)) => out.push(Finding::new("script-wrong-count", &["C14"], format!("{} returned {n} for 4 commands", op.text()))),
+        match (k % 2, r) {
+            (0, Ok(n)) if *n == if *k == 0 { 4 } else { 3 } => {}
+            (1..=u8::MAX, Err(_)) => {}
+            (0, Ok(n)) => out.push(Finding::new("script-wrong-count", &["C14"], format!("{} returned {n} for {} commands", op.text(), if *k == 0 { 4 } else { 3 }))),
             (0, Err(e)) => {
                 out.push(Finding::new("script-well-formed-rejected", &["C14"], format!("{} was rejected: {e}", op.text())));
                 return out;
             }
             (_, Ok(n)) => {
-                out.push(Finding::new("script-malformed-accepted", &["C14"], format!("{} returned Ok({n}) although its fifth command is malformed", op.text())));
+                out.push(Finding::new("script-malformed-accepted", &["C14"], format!("{} returned Ok({n}) although its last but one command is malformed", op.text())));
                 return out;
             }
         }
@@ -615,6 +620,7 @@ pub fn check_transition<const N: usize>(
     for e in model_errs {
         let tags: Vec<&'static str> = match op {
             Op::NextId | Op::AddNext => vec!["C05"],
+            Op::Script(..) => vec!["C14", "C05"],
             Op::Merge(..) => {
                 if e.contains("next_id") || e.contains("already present") || e.contains("capacity") {
                     vec!["C11", "C05"]
@@ -954,6 +960,10 @@ fn step_nocheck_inner<const N: usize>(g: &mut Sodg<N>, m: &mut Model, op: &Op) -
             let _ = m.apply_merge(&fixed_tree(*k), *left, &|gl, a| guarded(|| gr.kid(gl, lab(a))).ok().flatten(), &mut errs);
         }
         (Op::MergeFail(..), Ret::Merge(Err(_))) => adopt_real_state(g, m)?,
+        (Op::Script(k, a, _), Ret::Script(_)) if *k >= 2 => {
+            let id = guarded(|| g.kid(*a, lab(0))).ok().flatten();
+            m.apply_var_script(*a, id, &mut errs);
+        }
         (Op::NextId | Op::AddNext | Op::Merge(..) | Op::MergeFail(..), _) => return Err(format!("{} did not return what it returned before", op.text())),
         _ => {
             // the model followed this history when it was discovered; if it cannot now, an earlier call
@@ -1045,6 +1055,10 @@ pub fn step<const N: usize>(labels: &[u8], g: &mut Sodg<N>, m: &mut Model, op: &
             if let Err(e) = adopt_real_state(g, m) {
                 errs.push(format!("cannot take over the state after the refused merge: {e}"));
             }
+        }
+        (Op::Script(k, a, _), Ok(Ret::Script(_))) if *k >= 2 => {
+            let id = guarded(|| g.kid(*a, lab(0))).ok().flatten();
+            m.apply_var_script(*a, id, &mut errs);
         }
         (Op::NextId | Op::AddNext | Op::Merge(..) | Op::MergeFail(..), _) => {}
         (_, Ok(_)) => ex = m.apply(op),
@@ -1153,7 +1167,9 @@ fn count_transition(c: &mut BTreeMap<&'static str, u64>, m0: &Model, op: &Op, ex
         Op::Merge(..) => bump(c, "merges"),
         Op::MergeFail(..) => bump(c, "refused_merges"),
         Op::Script(0, ..) => bump(c, "scripts_deployed"),
-        Op::Script(..) => bump(c, "scripts_failing_after_four_commands"),
+        Op::Script(1, ..) => bump(c, "scripts_failing_after_four_commands"),
+        Op::Script(2, ..) => bump(c, "scripts_with_a_variable_deployed"),
+        Op::Script(..) => bump(c, "scripts_with_a_variable_failing_after_three_commands"),
     }
 }
 
